@@ -1073,6 +1073,10 @@ def evaluate(r: Rat, val: dict, fns: dict | None = None):
                 return F(fns[a.name](*args))
             if a.name == 'abs':
                 return abs(args[0])
+            if a.name == 'round':
+                return F(round(args[0]))
+            if a.name == 'floor':
+                return F(args[0].__floor__())
             if a.name in ('pymax', 'max2'):
                 return max(args)
             if a.name in ('pymin', 'min2'):
